@@ -13,7 +13,12 @@ def norm(n):
     return "-".join(w.capitalize() for w in n.split("-"))
 
 
-def build_ops():
+# names in which a letter follows a digit, underscore or dot inside a word (only '-' separates words)
+NAMES_ODD = ["P3P", "p3p", "X_Id-S3Key", "x_id-s3key"]
+CUR = {"names": NAMES}
+
+
+def build_ops(NAMES=NAMES, lines=True):
     ops = []
     for n in NAMES:
         for v in VALUES:
@@ -27,6 +32,9 @@ def build_ops():
     for n in NAMES[:3]:
         ops.append(("get", n))
         ops.append(("pop", n))
+    if not lines:
+        return ops + [("line", "P3P: 1\r\n"), ("line", "x_id-s3key:2"), ("cont", " x\r\n"), ("copymut", NAMES[0]),
+                      ("setdefault", NAMES[1], "9"), ("items",), ("str_rt",), ("update", NAMES[3], "7")]
     ops += [("line", "A: 1\r\n"), ("line", "b-c:2"), ("line", "a:\t 3 \n"),
             ("cont", " x\r\n"), ("cont", "\ty"), ("cont", "  \r\n"), ("cont", " \xa0z\xa0\r\n"),
             ("copymut", "A"), ("copymut", "b-c"),
@@ -35,6 +43,7 @@ def build_ops():
 
 
 OPS = build_ops()
+OPS_ODD = build_ops(NAMES_ODD, lines=False)
 
 
 class Ref:
@@ -170,7 +179,7 @@ def invariants(hd, ref):
         return "len %r != %r" % (len(hd), len(ref.d))
     if list(hd) != list(ref.d):
         return "iter %r != %r" % (list(hd), list(ref.d))
-    for n in NAMES + ["zz"]:
+    for n in CUR["names"] + ["zz"]:
         if (n in hd) != (norm(n) in ref.d):
             return "contains(%r) wrong" % n
         if list(hd.get_list(n)) != ref.d.get(norm(n), []):
@@ -189,7 +198,7 @@ class C06(Check):
     design_ref = "DESIGN.md §2 C06"
     rule = ("explicit-state BFS over all operation histories up to the depth bound on a real "
             "HTTPHeaders (ops: add/set/del/getitem/get/pop/setdefault/update/parse_line/"
-            "continuation/items/copy-mutate/str-parse round trip over names {A,a,b-c,B-C}); "
+            "continuation/items/copy-mutate/str-parse round trip over names {A,a,b-c,B-C}, and one level shallower over {P3P, p3p, X_Id-S3Key, x_id-s3key}); "
             "state = (_as_list, _combined_cache, _last_key); every op result compared with a "
             "list-multimap reference; non-trivial = distinct canonical states with >=1 "
             "multi-valued or cache-less field")
@@ -201,12 +210,20 @@ class C06(Check):
         return 4 if tier == "quick" else 5
 
     def partitions(self, tier):
-        return list(range(len(OPS)))
+        return list(range(len(OPS))) + [("odd", i) for i in range(len(OPS_ODD))]
 
     def run_partition(self, part, tier, st):
         from tornado import httputil
-        first = OPS[part]
-        depth = self.depth(tier)
+        if isinstance(part, tuple):
+            CUR["names"] = NAMES_ODD
+            ops, first, depth = OPS_ODD, OPS_ODD[part[1]], self.depth(tier) - 1
+            return self._bfs(ops, first, depth, st, httputil, False)
+        CUR["names"] = NAMES
+        self._bfs(OPS, OPS[part], self.depth(tier), st, httputil, part == 0)
+        st.setmax("depth", self.depth(tier))
+
+    def _bfs(self, OPS, first, depth, st, httputil, with_empty):
+        part = 0 if with_empty else 1
         if part == 0:
             self._explore((), depth, st, httputil)   # the empty history itself
         seen = set()
@@ -262,6 +279,7 @@ class C06(Check):
         return c
 
     def replay(self, case):
+        CUR["names"] = NAMES_ODD if any(len(op) > 1 and op[1] in NAMES_ODD for op in case.get("hist", [])) else NAMES
         from tornado import httputil
         hd = httputil.HTTPHeaders()
         ref = Ref()
